@@ -164,17 +164,48 @@ def rule_casl(S):
             return x.get('id') if x is not None and x['k'] == 'DeclRefExpr' else None
 
         def step(ctx, nd, st):
-            copied, mods, guards, success = st
+            copied, mods, guards, success, bools = st
             k = nd['k']
+            if k == 'DeclStmt' or (k == 'BinaryOperator' and nd.get('op') == '='):
+                # bool local := getter of one flag of a word variable: a later branch on the local is a test of that
+                # flag, as long as neither the word variable is re-assigned nor that flag set in between
+                defs = []
+                if k == 'DeclStmt':
+                    defs = [(v['id'], f.node(v['init'])) for v in nd.get('vars', []) if 'init' in v and
+                            (v.get('type') or '').replace('const ', '').strip() == 'bool']
+                else:
+                    lv = var_of(f.ch(nd)[0])
+                    if lv is not None and (f.strip(f.ch(nd)[0], casts=True).get('ty') or '').strip() == 'bool':
+                        defs = [(lv, f.ch(nd)[1])]
+                for vid, init in defs:
+                    bools = frozenset(x for x in bools if x[0] != vid)
+                    t = term(f, init)
+                    neg = False
+                    while t[0] == 'un' and t[1] == '!':
+                        neg = not neg
+                        t = t[2]
+                    if t[0] == 'call' and (t[1] or '').startswith(NVB + '::get_') and t[2] and t[2][0] == 'var':
+                        bools = bools | {(vid, t[1].split('::get_')[1], t[2][1], neg)}
+                    ci = f.strip(init, casts=True)
+                    while ci is not None and ci['k'] == 'UnaryOperator' and ci.get('op') == '!':
+                        ci = f.strip(f.ch(ci)[0], casts=True)
+                    if ci is not None and ci['k'] == 'CXXMemberCallExpr' and \
+                            ci.get('cn', '').startswith('compare_exchange'):
+                        bools = bools | {(vid, '#cas', None, neg)}
+                if defs:
+                    return (copied, mods, guards, success, bools)
             if k == 'CXXOperatorCallExpr' and nd.get('cn') == 'operator=' and nd.get('mcls') == NVB:
                 a = [var_of(x) for x in nd.get('args', [])]
                 src_call = any(is_call(x, cq=NV + '::get_body') for x in f.walk(nd['args'][1]))
                 if a[0] and a[1]:
                     # desired = expected (what was established about the source word still holds for the copy)
-                    return ((a[0], a[1]), frozenset(), guards, False)
+                    return ((a[0], a[1]), frozenset(), guards, False,
+                            frozenset(x for x in bools if x[2] != vname(a[0])))
                 if a[0] and src_call:
                     # expected = get_body(): any earlier copy is stale
-                    return (None, frozenset(), frozenset(), False)
+                    return (None, frozenset(), frozenset(), False, frozenset())
+                if a[0]:
+                    return (copied, mods, guards, success, frozenset(x for x in bools if x[2] != vname(a[0])))
                 return st
             if k == 'CXXMemberCallExpr' and nd.get('mcls') == NVB and copied and \
                     var_of(call_recv(f, nd)) == copied[0]:
@@ -185,7 +216,9 @@ def rule_casl(S):
                     if a:
                         c = R.const_of(f, a[0])
                         arg = c if c in ('T', 'F') else ('param' if var_of(a[0]) == param else 'other')
-                    return (copied, mods | {(cn, arg)}, guards, False)
+                    if cn.startswith('set_'):
+                        bools = frozenset(x for x in bools if not (x[2] == vname(copied[0]) and x[1] == cn[4:]))
+                    return (copied, mods | {(cn, arg)}, guards, False, bools)
                 return st
             if k == 'CXXMemberCallExpr' and nd.get('cn') in ('compare_exchange_weak', 'compare_exchange_strong') and \
                     'atomic<yakushima::node_version64_body>' in (nd.get('cq') or ''):
@@ -217,7 +250,7 @@ def rule_casl(S):
             return st
 
         def branch(ctx, blk, idx, st):
-            copied, mods, guards, success = st
+            copied, mods, guards, success, bools = st
             if blk.term and 'cond' in blk.term and len(blk.succ) == 2:
                 c = f.strip(blk.term['cond'], casts=True)
                 t = term(f, blk.term['cond'])
@@ -226,6 +259,16 @@ def rule_casl(S):
                     neg = not neg
                     t = t[2]
                 truth = (idx == 0) != neg
+                if t[0] == 'var':
+                    bound = [x for x in bools if vname(x[0]) == t[1]]
+                    if len(bound) == 1 and bound[0][1] != '#cas':
+                        # the local stands for the flag getter it was bound to
+                        t = ('call', NVB + '::get_' + bound[0][1], ('var', bound[0][2]))
+                        truth = truth != bound[0][3]
+                    if len(bound) == 1 and bound[0][1] == '#cas':
+                        if truth:
+                            return (copied, mods, guards, True, bools)
+                        return (None, frozenset(), frozenset(), False, frozenset())
                 if t[0] == 'call' and (t[1] or '').startswith(NVB + '::get_') and t[2] and t[2][0] == 'var':
                     fld = t[1].split('::get_')[1]
                     subj_ok = copied is not None and t[2][1] in (vname(copied[0]), vname(copied[1]))
@@ -237,12 +280,12 @@ def rule_casl(S):
                         guards = frozenset(g.items())
                 if c is not None and c['k'] == 'CXXMemberCallExpr' and c.get('cn', '').startswith('compare_exchange'):
                     if idx == 0:
-                        return (copied, mods, guards, True)
-                    return (None, frozenset(), frozenset(), False)  # failed CAS refreshed expected: copy is stale
-            return (copied, mods, guards, success)
+                        return (copied, mods, guards, True, bools)
+                    return (None, frozenset(), frozenset(), False, frozenset())  # failed CAS refreshed expected: copy is stale
+            return (copied, mods, guards, success, bools)
 
         ex = Explorer(f, step, branch)
-        ex.run((None, frozenset(), frozenset(), False))
+        ex.run((None, frozenset(), frozenset(), False, frozenset()))
         falloff_bad = [s for s in ex.exit_states if not s[3]]
         S.ob('R-CASL', f.qname, 'has a CAS', bool(sites), 'updates through compare-exchange' if sites else
              'the function no longer updates the word through a compare-exchange', loc=f.loc)
